@@ -11,6 +11,9 @@ pub struct Case {
     pub site: Site,
     pub date: String,
     pub p: PSpec,
+    /// weather passed to every call of the case (the policy run, the conventional run, the run at the substitute latitude)
+    #[serde(default)]
+    pub weather: Option<(X, X)>,
 }
 
 const TOL: f64 = 3.0;
@@ -22,17 +25,18 @@ pub fn check(_ctx: &Ctx, st: &mut Stats, c: &Case) {
     p0.extreme_latitude_method = ExtremeLatitudeMethod::None;
     let date = s2d(&c.date);
     let l = c.site.loc();
+    let w = c.weather.map(|(a, b)| weather(a.0, b.0));
     // route diversity: every 16th case reads the policy result off the RANGE API (last date of a short range)
-    let via_range = hash64(&c.date) % 16 == 3;
+    let via_range = hash64(&c.date) % 16 == 3 && w.is_none();
     let res_call = if via_range {
         st.count("policy_result_read_via_range_api");
         st.evaluations += 1;
         let dr = DateRange::from(from_ce(ce(date) - (hash64(&c.date) % 5) as i32 - 1)..=date);
         super::guarded(|| prayer_times_dt_rng(&p, l, &dr)).and_then(|mut m| m.remove(&date).ok_or_else(|| "date missing from range result".to_string()))
     } else {
-        call(st, &p, l, date, None)
+        call(st, &p, l, date, w)
     };
-    let (Ok(base), Ok(res)) = (call(st, &p0, l, date, None), res_call) else {
+    let (Ok(base), Ok(res)) = (call(st, &p0, l, date, w), res_call) else {
         st.count("panicked_cannot_decide(see C07)");
         return;
     };
@@ -122,7 +126,7 @@ pub fn check(_ctx: &Ctx, st: &mut Stats, c: &Case) {
     if is_nearest_lat(pol) {
         let nl = c.p.policy_lat.unwrap().0;
         let l2 = loc(nl, c.site.lon.0, c.site.elev.0, c.site.gmt.0);
-        if let Ok(sub) = call(st, &p0, l2, date, None) {
+        if let Ok(sub) = call(st, &p0, l2, date, w) {
             let all = pol == "NearestLatitudeAllPrayersAlways";
             let which: &[Prayer] = if all { &SIX } else { &[Prayer::Fajr, Prayer::Isha] };
             for pr in which {
@@ -203,6 +207,14 @@ pub fn run(ctx: &Ctx, st: &mut Stats) {
             rand_date(&mut r)
         });
         let method = r.int(1, 8) as usize;
+        // a third of the inputs carry weather anywhere in its legal range (thin cold air included): the formulas are
+        // stated for the times "of the same input", weather included
+        let wx = if r.chance(0.33) {
+            let w = gen::any_weather(&mut r);
+            Some((X(f64::from(w.pressure)), X(f64::from(w.temperature))))
+        } else {
+            None
+        };
         for pol in pols {
             let pl = if is_nearest_lat(pol) {
                 Some(match r.int(0, 6) {
@@ -219,6 +231,7 @@ pub fn run(ctx: &Ctx, st: &mut Stats) {
                 site,
                 date: date.clone(),
                 p: PSpec::new(method).with_policy(pol, pl),
+                weather: wx,
             };
             check(ctx, st, &c);
             if k == 0 {
